@@ -504,10 +504,56 @@ def ground_expected(pr, repo):
     pr.add(Ground('BD: tabulated X-H lengths are C 1.09, N 1.01, O 0.96, F 0.92, Cl 1.27, Br 1.41, I 1.61, S 1.35', bl == LENGTHS, detail=str(bl)))
 
 
+def task_protonate_calls(pr, repo):
+    """PC: which atoms a group's setup hands to the protonator does not depend on hydrogens already attached (supplied with the
+    input under keep-protons): the protonator itself works out how many are missing (EC), so a partly protonated amide / guanidinium /
+    ring nitrogen is still completed."""
+    import ast as _ast
+    ex = Executor(repo)
+    mod = repo.module('propka.group')
+    A = repo.cls('propka.atom.Atom')
+    classes = [ci for ci in mod.classes.values() if 'setup_atoms' in ci.methods and
+               any(isinstance(n, _ast.Attribute) and n.attr == 'protonate_atom' for n in _ast.walk(ci.methods['setup_atoms'].node))]
+    pr.add(Ground('PC: group classes whose setup adds hydrogens were found in propka.group', len(classes) >= 4, kind='aux',
+                  detail=str([c.name for c in classes])))
+    for ci in classes:
+        fi = ci.methods['setup_atoms']
+        pr.under_contract(fi)
+
+        def thunk(ex, ctx, ci=ci, fi=fi):
+            runs = []
+            main = record('main', A, element='N', name='NX')
+            cache = {}
+
+            def bonded(owner, el, run):
+                if el == 'H':
+                    return [] if run == 0 else [cache.setdefault(('H', owner.name), record('h_' + owner.name, A, element='H', name='H'))]
+                key = (owner.name, el)
+                if key not in cache:
+                    cache[key] = [record('%s_%s%d' % (owner.name, el, i), A, element=el, name=el + str(i)) for i in range(2)]
+                return list(cache[key])
+            ring = [main] + [record('r%d' % i, A, element=e, name='R%d' % i) for i, e in enumerate(['C', 'N', 'C', 'N'])]
+            for run in (0, 1):
+                calls = []
+                ex.contracts['propka.atom.Atom.get_bonded_elements'] = \
+                    lambda ex_, c_, f_, a, k, so, run=run: bonded(so, a[0] if a else k['element'], run)
+                ex.contracts['propka.atom.Atom.get_bonded_heavy_atoms'] = lambda ex_, c_, f_, a, k, so, run=run: bonded(so, 'C', run)[:1]
+                ex.contracts['propka.ligand.is_ring_member'] = lambda ex_, c_, f_, a, k, so: list(ring)
+                ex.contracts['propka.protonate.Protonate.protonate_atom'] = lambda ex_, c_, f_, a, k, so: calls.append(a[0])
+                ex.contracts['propka.group.Group.set_center'] = lambda ex_, c_, f_, a, k, so: None
+                ex.contracts['propka.group.Group.set_interaction_atoms'] = lambda ex_, c_, f_, a, k, so: None
+                g = record('g', ci, atom=main, type='XX', x=0.0, y=0.0, z=0.0, label='g')
+                ex.call_function(fi, [], self_obj=g)
+                runs.append(sorted(a.name for a in calls))
+            ctx.oblige('PC[%s.setup_atoms]: the atoms handed to the protonator are the same with and without hydrogens already attached '
+                       '(and there is at least one)' % ci.name, runs[0] == runs[1] and len(runs[0]) >= 1)
+        pr.explore(ex, thunk, 'protonate calls %s' % ci.name)
+
+
 def run(pr, repo):
     ground_expected(pr, repo)
     pr.parallel([(task_bond_distance, ()), (task_orthogonal, ()), (task_add_proton, ()), (task_electron_count, ()), (task_counts, ()), (task_obtuse, ()),
-                 (task_equivariance, ()), (C20.task_rotation, ()), (reader.task_nterm, ())])
+                 (task_equivariance, ()), (C20.task_rotation, ()), (reader.task_nterm, ()), (task_protonate_calls, ())])
     pr.assumptions += ['"regular covalent geometry" is encoded as: existing bonds longer than 0.5 A; 2-bond case: cos(angle) > -0.9; '
                        '3-bond case: cos(angle) in (-0.6, 0.2)', 'sequentially built hydrogens (Arg/Asn/Gln NH2, methyl-like cases) and the '
                        '1-bond placements that go through rotate_vector_around_an_axis: at least 0.5 A apart is BOUNDED only (monitor); '
